@@ -74,49 +74,7 @@ def scenario(ctx, rng, o):
 
 
 def abort_then_new_flow(ctx, rng, chunks):
-    """An application aborts a download (EPIPE towards it) while frames of that flow are still in flight from
-    the server; a new connection is accepted before they arrive.  Nothing of the old flow may reach the new one."""
-    from tunnel_sim import Io
-    o = tg.Opts(nflows=2, steps=0)
-    sc = tg.Scenario(rng, o)
-    try:
-        sc.do(('accept',))
-        sc.do(('deliver', 's', 'ok'))
-        sc.do(('deliver', 's', 'ok'))
-        for k in range(chunks):
-            sc.env_write(0, 'dst', tg.payload(rng, 2048, 7 + k))
-            sc.do(('cb', 's', 0, Io('ok', 'd2048', 'a', False)))
-        # first frames reach the client, the application is gone: EPIPE
-        while sc.t.smux.outbuf and not sc.stop:
-            import struct
-            (_a, _b, chan, cmd, _n) = struct.unpack('!ccHHH', sc.t.smux.outbuf[0][:8])
-            sc.do(('deliver', 'c', 'ok'))
-            if cmd == sc.t.ssnet.CMD_TCP_DATA:
-                break
-        sc.do(('ae', 0))
-        sc.do(('cb', 'c', 0, Io('ok', 'd1', 'p', False)))
-        sc.do(('idle', 'c'))
-        sc.do(('cb', 'c', 0, Io('ok', 'd1', 'p', False)))
-        sc.do(('idle', 'c'))
-        sc.faulty.add(0)
-        # a new connection arrives while the rest of the old flow's frames are still in flight
-        sc.do(('accept',))
-        tg.oracle_prefix(ctx, sc, 'C01', 'after abort')
-        if len(sc.t.flows) > 1:
-            sc.env_write(1, 'dst', b'fresh answer for the second connection')
-        q = sc.drain(on_round=lambda s: tg.oracle_prefix(ctx, s, 'C01', 'drain after abort'))
-        for i in range(len(sc.t.flows)):
-            sc.do(('ae', i))
-            sc.do(('de', i))
-        q = sc.drain(on_round=lambda s: tg.oracle_prefix(ctx, s, 'C01', 'final drain after abort'))
-        if not sc.stop:
-            tg.oracle_complete(ctx, sc, 'C01', q)
-            if q:
-                tg.oracle_quiet(ctx, sc, 'C01')
-        tg.oracle_alive(ctx, sc, 'C01', 'run')
-        return sc.s.ins, sc.s.outs
-    finally:
-        sc.close()
+    return tg.abort_then_new_flow(ctx, rng, 'C01', chunks)
 
 
 def wire_level(ctx, rng, grant, nframes):
